@@ -291,7 +291,7 @@ def run(s, want=('satisfies', 'intersect', 'difference', 'allows_any', 'allows_a
                     cmpres('%s.%s(%s)' % (ranges[i][0], op, ranges[j][0]), z3.is_true(M.eval(h.call(f, rvals[i], rvals[j]).t)), nat['%s%d_%d' % (op, i, j)])
     if 'min_version' in want:
         f = fn('min_version')
-        for i in sorted(okr):
+        for i in sorted(okr)[:4 * max_pairs]:
             r = simp(h.call(f, rvals[i]))
             got = None if M.eval(r.tag).as_long() == 0 else vtext(C.fix(h.dec_version(M, payload(r, 'Some')[0])))
             x = nat['m%d' % i]
@@ -314,7 +314,7 @@ def run(s, want=('satisfies', 'intersect', 'difference', 'allows_any', 'allows_a
         vt = e.ty('&[Version]')
         if vt.cap >= k:
             sl = Vc(vt, bv(k, 64), vvals[:k] + [None] * (vt.cap - k), k)
-            for i in sorted(okr):
+            for i in sorted(okr, key=lambda i: (len(ranges[i][1]), i))[:max(4, max_pairs // 3)]:
                 r = simp(h.call(f, rvals[i], sl))
                 got = None if M.eval(r.tag).as_long() == 0 else vtext(C.fix(h.dec_version(M, payload(r, 'Some')[0])))
                 x = nat['x%d' % i]
